@@ -222,6 +222,21 @@ class GetFullGridAsArray(Contract):
             V.oblige("mustfail:rotation-major-order", z3.Implies(z3.And(r >= 0, r < n), as_real(res.buf.fn(r, 3)) == Q(r / n_p, 0)), kind="mustfail")
 
 
+def _full_array_apply(self, interp, func, args, kwargs):
+    """call-site summary of get_full_grid_as_array (its body is verified above against the same row formula)"""
+    fg = args[0]
+    pg = fg.fields["position_grid"]
+    n_b = interp.call(interp.getattr(fg.fields["b_rotations"], "get_N"), [], {})
+    n_o = interp.call(interp.getattr(pg.fields["o_rotations"], "get_N"), [], {})
+    radii = pg.fields["t_grid"].fields["trans_grid"]
+    n = z3.simplify(n_b.z * n_o.z * zint(radii.length))
+    F = interp.ctx.func("full_grid_array", z3.IntSort(), z3.IntSort(), z3.RealSort())
+    return Mat(n, 7, lambda i, j: Num(F(zint(i), zint(j)), False), elem="real")
+
+
+GetFullGridAsArray.apply = _full_array_apply
+
+
 class IndexHelpers(Contract):
     target = f"{REL}::FullGrid.get_position_index"
     variants = ("indices", "none")
